@@ -1,13 +1,13 @@
 package harness
 
 import (
-	"os"
 	"bytes"
 	"context"
 	"encoding/json"
 	"fmt"
 	"io"
 	"net/http/httptest"
+	"os"
 	"strconv"
 	"strings"
 	"time"
